@@ -813,3 +813,29 @@ func (m *PyModule) Shape() string {
 	}
 	return sb.String()
 }
+
+// SharePyNames makes module b declare a class and/or a capitalised function under a name that module a declares
+// too (two modules of one scan both with `class Meta`); methods and decorators stay b's own.
+func SharePyNames(r *run.Rand, a, b *PyModule) []string {
+	var shared []string
+	if ac, bc := a.Classes(), b.Classes(); len(ac) > 0 && len(bc) > 0 {
+		ca, cb := ac[r.Intn(len(ac))], bc[r.Intn(len(bc))]
+		cb.Name = ca.Name
+		shared = append(shared, "class "+ca.Name)
+	}
+	var capital []*PyFunc
+	for _, fn := range a.Funcs() {
+		if fn.Name[0] >= 'A' && fn.Name[0] <= 'Z' {
+			capital = append(capital, fn)
+		}
+	}
+	if bf := b.Funcs(); len(capital) > 0 && len(bf) > 0 && (r.Chance(1, 2) || len(shared) == 0) {
+		fa, fb := capital[r.Intn(len(capital))], bf[r.Intn(len(bf))]
+		fb.Name = fa.Name
+		shared = append(shared, "def "+fa.Name)
+	}
+	if len(shared) > 0 {
+		b.render()
+	}
+	return shared
+}
